@@ -396,21 +396,31 @@ def c04_4(ctx):
     mod, fn = rl.get(ctx, "tx:Tx.parse")
     cfg = cfg_of(fn)
     ok = False
+    wrong_sel = False
     for n in cfg.tests():
-        t = n.ast
-        if isinstance(t, ast.Compare) and isinstance(t.ops[0], (ast.Eq, ast.NotEq)) and isinstance(t.comparators[0], ast.Constant) and t.comparators[0].value == b"\x00":
-            # True edge (for ==) must select parse_segwit
-            lab = isinstance(t.ops[0], ast.Eq)
+        t = expand(fn, n.id, n.ast, depth=3)
+        neg = False
+        if isinstance(t, ast.UnaryOp) and isinstance(t.op, ast.Not):
+            t, neg = t.operand, True
+        if isinstance(t, ast.Compare) and len(t.ops) == 1 and isinstance(t.ops[0], (ast.Eq, ast.NotEq)) and any(isinstance(x, ast.Constant) and x.value in (b"\x00", 0) for x in (t.left, t.comparators[0])):
+            # the edge on which the marker byte is zero must select parse_segwit (as an assignment or as the call itself)
+            lab = isinstance(t.ops[0], ast.Eq) != neg
             for b, l in cfg.succ[n.id]:
                 a = cfg.nodes[b].ast
-                if l == lab and isinstance(a, ast.Assign) and "parse_segwit" in ast.unparse(a.value):
+                txt = ast.unparse(a) if a is not None else ""
+                if l == lab and "parse_segwit" in txt:
                     ok = True
+                elif l == lab and "parse_legacy" in txt:
+                    wrong_sel = True
     reads = [Folder(ctx.repo, mod.name).fold(c.args[0]) for n, c in sorted(rl.find_calls(fn, "read"), key=lambda x: (x[0].lineno, x[1].col_offset)) if c.args]
     seeks = [Folder(ctx.repo, mod.name).fold(c.args[0]) for n, c in rl.find_calls(fn, "seek") if c.args]
     if ok and reads == [4, 1] and seeks == [-5]:
         out.append(ctx.ok("tx:Tx.parse", "marker byte after the 4-byte version selects the segwit parser; stream rewound by 5", fn, mod, key="sniff"))
+    elif wrong_sel or (ok and (reads != [4, 1] or seeks != [-5]) and all(isinstance(x, int) for x in reads + seeks)):
+        out.append(ctx.bad("tx:Tx.parse", "segwit sniffing: reads %s, seek %s, zero marker selects %s (expected reads [4,1], seek [-5], parse_segwit)" % (
+            reads, seeks, "parse_legacy" if wrong_sel else "parse_segwit"), fn, mod, key="sniff"))
     else:
-        out.append(ctx.bad("tx:Tx.parse", "segwit sniffing: reads %s, seek %s, marker→parse_segwit %s (expected reads [4,1], seek [-5])" % (reads, seeks, ok), fn, mod, key="sniff"))
+        out.append(ctx.err("tx:Tx.parse", "segwit sniffing idiom not recognised (reads %s, seek %s)" % (reads, seeks), fn, mod))
     return out
 
 
